@@ -590,3 +590,6 @@ def check(ctx):
     r10_any_guard_only_on_request(ctx)
     r11_common_ancestor_covers_every_scope(ctx)
     r12_guard_and_host_are_normalised_alike(ctx)
+
+
+CLAUSE += '; every module listed in routes(from![..]) is imported (shared C04.R6)'
